@@ -68,14 +68,19 @@ def build_file(spec: dict, path: str) -> None:
     data = S.build(w, compress=spec['compress'], game_sep=var != 'nosep', dummy_game_lump=var != 'nodummy')
     with open(path, 'wb') as f:
         f.write(data)
-    # the synthesiser and the reader must agree on every decompressed lump, or the file is not what we think
-    bsp = BSP(path)
-    exp = S.expected_raw(w)
-    for name, data in exp.items():
-        got = bsp.lumps[L.BSP_LUMPS[name]].data
-        if got != data:
-            sys.stderr.write(f'MACHINERY: synthesised lump {name} of {spec["id"]} read back differently\n')
-            sys.exit(2)
+    # the reader must hand back, decompressed, exactly the lump bytes the independent encoder put in
+    # (judged with every scenario of the file: clause prop.rawAsEncoded)
+    spec['raw_mismatch'] = []
+    try:
+        bsp = BSP(path)
+        exp = S.expected_raw(w)
+        spec['raw_mismatch'] = sorted(name for name, data in exp.items() if bsp.lumps[L.BSP_LUMPS[name]].data != data)
+        gl = {b'sprp': S._sprp_bytes(spec['layout'], w['sprp']), b'dprp': S._dprp_bytes(w['dprp'])}
+        gl.update({g[0]: g[3] for g in w['other_game_lumps']})
+        spec['raw_mismatch'] += sorted('game:' + k.decode() for k, data in gl.items()
+                                       if k not in bsp.game_lumps or bsp.game_lumps[k].data != data)
+    except Exception as exc:    # noqa: BLE001 - reported by the scenarios (stage 'open')
+        spec['raw_mismatch'] = ['unreadable:' + type(exc).__name__]
 
 
 def prepare(work: str, tier: str) -> None:
@@ -136,6 +141,7 @@ def run_scenario(ctx: FileCtx, acc: list, tracer: L.Tracer, src: str, full: bool
         'k': 'run', 'file': spec['id'], 'acc': acc, 'cacheAfterAccess': [], 'ev': [], 'cacheAfterSave': [],
         'changed': [], 'viewDiff': [], 'headDiff': [], 'metaDiff': [], 'trivial': ctx.trivial, 'resave': 'same',
         'saveAgain': 'same', 'cycle2': [], 'errors': {}, 'cycles': 'full' if full else 'main', 'failed': [],
+        'rawMismatch': spec.get('raw_mismatch', []),
         'sig': {'kind': 'run', 'action': 'save', 'layout': spec['layout'], 'compress': spec['compress'],
                 'variant': spec['variant'], 'src': src},
         'spec': {k: spec[k] for k in ('id', 'layout', 'compress', 'variant', 'wseed', 'heavy')},
@@ -213,9 +219,9 @@ def sequences(edges: list, tier: str, rng: random.Random, heavy: bool, every_sta
         seqs.append(([v], 'single'))
     pairs = [[v, w] for v, t in succ[init] for w, _ in succ.get(t, ())]
     if heavy:
-        pairs = rng.sample(pairs, 40 if tier == 'thorough' else 8)
+        pairs = rng.sample(pairs, min(len(pairs), 40 if tier == 'thorough' else 8))
     elif tier != 'thorough':
-        pairs = rng.sample(pairs, 60)
+        pairs = rng.sample(pairs, min(len(pairs), 60))
     seqs += [(p, 'pair') for p in pairs]
     # BFS: shortest access sequence into every distinct cache state
     paths = {init: []}
